@@ -19,6 +19,9 @@ T = {
  "C03": dict(tech="TLA+ model of verify_batch orchestration (chunk loop, consistency, result vector) checked by TLC with negative configs; behaviours replayed at model scale and with chunks expanded to the real 256",
              text="The chunk loop of verify_batch is a spec action with MaxBatch a constant; TLC checks verdict == conjunction, k aligned results and the refusal cases for every assignment of valid/invalid/disagreeing members up to 3*MaxBatch+1, and must find the violation in the two seeded-bug configurations (first chunk only; loop without whole-batch consistency). Every behaviour is replayed on the library, and again with each model chunk expanded to 256 real members so the real chunk boundaries are hit.",
              ref="§6 C03"),
+ "C04": dict(tech="TLA+ term model of the transcript (MC_Transcript, omission negatives) checked by TLC; TLC trace validation of recorded merlin operations: dependency at every challenge and single-datum perturbation pairs (TraceTranscriptPair)",
+             text="(MC) a term model of the Fiat-Shamir discipline: TLC checks that every challenge depends on everything absorbed before it and that omitting any single absorption is caught. (TV-2) the unmodified library runs with an instrumented merlin; for every datum d (context, H, each G_k, n, each commitment, each promise, A, each L_j/R_j, A1, B) TLC validates a pair of recorded verifier runs differing only in d: challenge sequences equal before and ALL different from the first challenge after d (index computed by the spec). (TV-1) in hundreds of prover and verifier runs every 32-byte datum is absorbed before the challenges that must depend on it. (RP) perturbed contexts are rejected.",
+             ref="§6 C04"),
  "C05": dict(tech="TLA+ API state machine with alteration actions, TLC-enumerated single alterations replayed on the library",
              text="TLC enumerates every single alteration of an accepted triple (each scalar and point slot with several replacement kinds, rounds +/-, degree tag, trailing/truncated bytes, each promise, commitment, generator, bit length, capacity, label) and predicts reject / accept (None<->Some(0), capacity); the library must agree on both groups and never panic.",
              ref="§6 C05"),
@@ -28,12 +31,21 @@ T = {
  "C07": dict(tech="TLA+ API machine: promise substitution at verification, TLC-enumerated, replayed",
              text="Per position of an aggregate every promise class is substituted at verification time; the spec predicts acceptance only for value-wise equal vectors and refusal of promises not fitting the bit length; replayed on both groups.",
              ref="§6 C07"),
+ "C08": dict(tech="TLC adversary game over formal weights (MC_Weights) and weight-seed binding (MC_Transcript); TLC trace validation of weight provenance and homogeneity in 252-bit arithmetic (TraceVerify), response-perturbation pairs",
+             text="(MC) an adaptive-adversary game with weights as formal indeterminates: no cancellation under the code's policy, attacks found for 'blind to a response' and 'constant' policies; the weight seed contains r1, s1 and every d1. (TV) on recorded multi-member batches TLC checks: member i's contribution to the weight transcript is an output of a generator built on i's transcript after all its responses were absorbed, the weight generator is built after every member contributed, w_i (defined as minus the scalar on B_i) is non-zero, is the reduction of a weight-generator output, distinct per member, and multiplies every scalar of proof i. Changing any response scalar changes the contribution and every weight.",
+             ref="§6 C08"),
  "C09": dict(tech="TLA+ API machine mask-result pattern (MaskOf) checked by TLC; behaviours replayed with exact mask comparison",
              text="Seeds x modes x batch compositions; the predicted per-member result (none / exact mask) is compared with the library's output component-wise.",
              ref="§6 C09"),
  "C10": dict(tech="TLA+ API machine: verdict independent of seed and mode, RecoverOnly masks; TLC-enumerated, replayed",
              text="valid and invalid proofs x {no seed, right seed, wrong seed} x three modes; predicted verdicts and mask classes (exact / other / none) compared on both groups.",
              ref="§6 C10"),
+ "C13": dict(tech="TLC term model (freshness, generator sees whole transcript); TLC trace validation of the prover in 252-bit arithmetic with nonces read off the proof points (TraceProve)",
+             text="The prover runs over the free-module group, so alpha_k, dL/dR, d, eta are coordinates of A, L_j/R_j, A1, B and r, s follow from r1, s1; TLC checks they are non-zero, pairwise distinct, each the reduction of an output of a generator built after the latest absorption preceding its use (unseeded) or exactly the reference seed derivation at (label, j, k) (seeded; r and s still from the generator), and that different runs share none - for all degrees 1..6.",
+             ref="§6 C13"),
+ "C14": dict(tech="TLC term model under RNG fault models (negatives: no witness rekey, no rebuild); TLC trace validation of generator keying and of run pairs under faulty external RNGs (TraceProve CrossFresh)",
+             text="(MC) with the external RNG all-zero / constant / period-2 / replayed, runs differing in any one input - the witness alone included - share no nonce term and identical runs reproduce; dropping the witness rekey or the rebuild is caught. (TV) in recorded prover runs every generator that produced output was rekeyed with the serialised witness and finalised with external bytes, and is rebuilt after each absorption group; pairs of runs with identical blindings and the same faulty RNG stream, identical or differing in one input, are validated by TLC: identical => same nonces, different => disjoint.",
+             ref="§6 C14"),
  "C12": dict(tech="TLA+ API machine: capacity irrelevant to validity; all capacity pairs and mixed-capacity batches replayed",
              text="All pairs (prover capacity, verifier capacity) >= m up to 32 and mixed-capacity batches are behaviours of the spec predicted to accept; replayed on both groups.",
              ref="§6 C12"),
